@@ -1,6 +1,7 @@
 package e1
 
 import (
+	"math/big"
 	"bytes"
 	"context"
 	"encoding/json"
@@ -70,7 +71,23 @@ func mutate(r *core.Rand, cmd [][]byte) ([]byte, string) {
 	for attempt := 0; attempt < 20; attempt++ {
 		var out []byte
 		kind := ""
-		switch r.Intn(16) {
+		switch r.Intn(17) {
+		case 16:
+			// a length of 20+ digits that equals the true length modulo 2^64 (or 2^32):
+			// a hand-rolled digit loop without an overflow check frames the command
+			// as if the header were valid
+			kind = "length-wraps-modulo-word-size"
+			wrap := func(n int) string {
+				b := new(big.Int).Lsh(big.NewInt(int64(1+r.Intn(3))), pick(r, []uint{64, 64, 64, 32}))
+				return b.Add(b, big.NewInt(int64(n))).String()
+			}
+			if r.Bool(0.3) {
+				out = append([]byte("*"+wrap(len(cmd))+"\r\n"), enc[bytes.Index(enc, []byte("\r\n"))+2:]...)
+			} else {
+				ai := r.Intn(len(cmd))
+				old := []byte(fmt.Sprintf("$%d\r\n%s\r\n", len(cmd[ai]), cmd[ai]))
+				out = bytes.Replace(enc, old, []byte(fmt.Sprintf("$%s\r\n%s\r\n", wrap(len(cmd[ai])), cmd[ai])), 1)
+			}
 		case 14, 15:
 			// exactly one of the two bytes that close a bulk payload is wrong (first,
 			// middle or last argument): a check that accepts "either byte right" passes it
